@@ -148,11 +148,34 @@ def shards(ctx):
     for cfg in ("c64", "c32"):
         out.append({"cfg": cfg, "sig": True, "state": None, "history": []})
     ctx.extra["abstract_states"] = len(reach) + 1
+    if ctx.tier == "thorough":
+        # "start from non-initial states": EVERY history of length 1 and 2 over the l=2 alphabet is a source state of its own (no
+        # deduplication by abstract state), so a key that reaches the same pattern along another route is explored from as well
+        U2 = dict(l=2, names=["v1", "v2"])
+        lists2 = wk.list_alphabet(2, U2["names"])
+        n = 0
+        for L1 in lists2:
+            for k1 in ("keygen", "ndkeygen"):
+                s1 = wk.model_step(None, [k1, L1], 2, vals)
+                out.append({"cfg": "asm", "sig": False, "state": [s1[0], list(s1[1])], "history": [[k1, L1]], "l": 2, "nodedup": 1})
+                n += 1
+                if k1 == "ndkeygen" and L1["omit"]:
+                    continue
+                for L2 in lists2:
+                    for k2 in ("qualify", "ndqualify"):
+                        s2 = wk.model_step(s1, [k2, L2], 2, vals)
+                        if s2 is None or not wk.free_slots(s2[1]):
+                            continue      # nothing left to delegate: successors are covered from the deduplicated state
+                        out.append({"cfg": "asm", "sig": False, "state": [s2[0], list(s2[1])], "history": [[k1, L1], [k2, L2]], "l": 2, "nodedup": 2})
+                        n += 1
+        ctx.extra["nodedup_sources"] = n
     return out
 
 
 def run_shard(ctx, shard):
     U = universe(ctx)
+    if "l" in shard:
+        U = dict(U, l=shard["l"])
     vals = wk.values(ctx.seed)
     state = None if shard["state"] is None else (shard["state"][0], tuple(shard["state"][1]))
     if state is not None:
@@ -164,13 +187,13 @@ def run_shard(ctx, shard):
             ctx.ok(False, "source-state-malformed(skipped)")
             ctx.notes.append("witness history %s yields a malformed key; its last transition reports it" % shard["history"])
             return
-    for op in transitions(state, U, vals, ctx.tier):
-        if shard.get("witness", 0) > 0 and op[0] == "adjust":
+    for op in transitions(state, U, vals, ctx.tier if "nodedup" not in shard else "quick"):
+        if (shard.get("witness", 0) > 0 or shard.get("nodedup")) and op[0] == "adjust":
             continue
         case = {"cfg": shard["cfg"], "l": U["l"], "sig": shard["sig"], "seed": ctx.seed, "history": shard["history"], "op": op}
         msgs = eval_case(case)
         nontriv = op[0] == "resample" or any(L["e"] for L in op[1:] if isinstance(L, dict))
-        ctx.ok(nontriv, classify(op))
+        ctx.ok(nontriv, classify(op) if "nodedup" not in shard else "nodedup-depth%d:%s" % (shard["nodedup"], op[0]))
         ctx.extra["transitions"] += 1
         ctx.sample({"from": "master" if state is None else state[0] + wk.pat_str(state[1]), "op": op}, limit=1)
         if msgs:
